@@ -339,6 +339,17 @@ class Interp:
             return float(m.group(1))
         if c.startswith('{alloc'):
             return Opaque(c)
+        if c.startswith('ZeroSized: '):
+            ty = c[len('ZeroSized: '):]
+            if ty.startswith('{closure@'):
+                span = ty[ty.index('@') + 1:].rstrip('}')
+                body = self.closure_by_span.get('closure@' + span)
+                if body is None:
+                    raise Unsupported('closure body not found for ' + c)
+                return Closure(body, [])
+            if ty.startswith('fn(') or ty.startswith('for<'):
+                raise Unsupported('zero-sized fn item constant ' + c)
+            return Adt(_last_seg(ty), 0, [])
         if 'promoted[' in c:
             return self.eval_promoted(c, frame)
         sp = strip_generics(c)
